@@ -405,9 +405,12 @@ def c14():
     obs = [
         ob("c14::tx_fee_gate_inputs", "qt", 6, "Transaction::{weight, fee, shifted_fee, accept_fee} - the quantities TransactionPool::is_acceptable compares - follow their definitions",
            "1-in/0-out/1-kernel tx, fee < 2^40, shift < 16, base < 2^40", est=60, loops={"memcmp": 70, "zeroize": 36}),
-        ob("c14::add_to_pool_gate_sequencing", "x", 3, "[ATTEMPT: symbolic execution did not finish in 660 s at unwind 3 or 6; with a 2 h cap it exceeded 40 GB after 36 min] TransactionPool::add_to_pool (empty pools, one transaction; chain, adapter and standalone validation answer arbitrarily): admitted ONLY IF the shifted fee reaches weight * accept_fee_base, standalone validation as a transaction (weight limit included) ran and accepted, lock height / coinbase maturity / utxo checks were made against the chain and passed, the pool aggregate validated, and an NRD kernel is enabled and past header version 4; stem goes to the stempool only unless the adapter refuses; a refusal leaves the public pool empty and announces nothing; below the fee floor the refusal is LowFeeTransaction before any validation",
+        ob("c14::add_to_pool_gate_sequencing", "x", 3, "[ATTEMPT: symbolic execution did not finish in 660 s at unwind 3 or 6; with a 2 h cap it exceeded 40 GB after 36 min; with BlindingFactor::add replaced by its model it was still growing (8 GB) after 15 min] TransactionPool::add_to_pool (empty pools, one transaction; chain, adapter and standalone validation answer arbitrarily): admitted ONLY IF the shifted fee reaches weight * accept_fee_base, standalone validation as a transaction (weight limit included) ran and accepted, lock height / coinbase maturity / utxo checks were made against the chain and passed, the pool aggregate validated, and an NRD kernel is enabled and past header version 4; stem goes to the stempool only unless the adapter refuses; a refusal leaves the public pool empty and announces nothing; below the fee floor the refusal is LowFeeTransaction before any validation",
            "1-in/0-out/1-kernel tx (plain / height-locked / NRD), fee < 2^40, shift < 16, base < 2^40, stem or fluff, every header version, NRD flag, symbolic verdicts of the chain, the adapter and Transaction::validate (tagging stub; the validation itself is C01)", est=400,
            loops={"memcmp": 70, "zeroize": 36, "memcpy": 120}, replay="model", mem_est_gb=12),
+        ob("c14::pool_add_validates_against_chain", "t", 3, "Pool::add_to_pool (aggregate-and-validate step of both pools) on an empty pool: the entry is stored only if validation of the aggregate ran and accepted (tagging stub), the chain's utxo check passed and the kernel sums balance on top of the chain's block sums (E7 model; BlindingFactor::add replaced by its model); a refusal leaves the pool empty",
+           "1-in/0-out/1-kernel tx with symbolic model commitments, fee < 2^16, offset; symbolic verdicts of validation and of the chain", est=900, cap_s=3600,
+           loops={"memcmp": 70, "zeroize": 36, "memcpy": 120, "pack_bits": 50, "write": 50}, replay="model", mem_est_gb=22),
         ob("c14::pool_refuses_low_fee", "t", 6, "TransactionPool::add_to_pool refuses (LowFeeTransaction) every tx whose shifted fee is below weight*accept_fee_base; weight / shifted_fee / accept_fee formulas",
            "[thorough-tier ATTEMPT: did not finish in 37 min / 23 GB] 1-in/0-out/1-kernel tx, fee < 2^40, shift < 16, base < 2^40, plain or height-locked kernel, stem or fluff, empty pools", est=3000, cap_s=3600, loops={"memcmp": 70, "zeroize": 36}),
         ob("c14::pool_refuses_nrd_unless_enabled_and_hf3", "t", 6, "add_to_pool refuses NRD kernels while the feature is off or the header version is below 4",
@@ -490,13 +493,13 @@ def c16():
                       "prunable MMR, spent leaves pruned but not compacted: the segment from_pmmr(prunable) produces validates against the root under EVERY unspent bitmap (whole segment spent, sibling subtree spent too, partial, none)",
                       "%d leaves (symbolic contents), segment height %d index %d, symbolic unspent bitmap over the leaves" % (n, h, idx),
                       env={"VH_NLEAF": n, "VH_SEGH": h, "VH_SEGIDX": idx}, tag="_n%d_h%d_i%d" % (n, h, idx), est=1500, cap_s=3600, loops=HL, mem_est_gb=12))
-    for n, h, idx, hpos, tiers in [(8, 1, 0, 6, "qt"), (8, 1, 0, 14, "qt"), (8, 1, 1, 6, "qt"), (8, 0, 2, 6, "t"), (8, 1, 2, 13, "t"), (16, 2, 0, 14, "qt"), (16, 2, 0, 30, "qt"), (6, 1, 0, 6, "t"), (16, 1, 3, 14, "t"), (16, 2, 2, 29, "t")]:
+    for n, h, idx, hpos, tiers in [(8, 1, 0, 6, "qt"), (8, 1, 0, 14, "qt"), (8, 1, 1, 6, "qt"), (8, 0, 2, 6, "t"), (8, 1, 2, 13, "t"), (16, 2, 0, 14, "qt"), (16, 2, 0, 30, "t"), (6, 1, 0, 6, "t"), (16, 1, 3, 14, "t"), (16, 2, 2, 29, "t")]:
         obs.append(ob("c16::pruned_segment_parent_covers_only_spent_leaves", tiers, 8,
                       "a fully spent segment carrying one hash at an ancestor of its root: first_unpruned_parent (the hash validate() checks the proof against) accepts the ancestor exactly when no leaf under it is unspent in the bitmap - an omitted unspent leaf (leftmost, middle or rightmost) is refused; unspent leaves of the segment without data are refused",
                       "%d leaves, segment height %d index %d, hash at position %d, every unspent bitmap, any hash value" % (n, h, idx, hpos),
                       env={"VH_NLEAF": n, "VH_SEGH": h, "VH_SEGIDX": idx, "VH_HPOS": hpos}, tag="_n%d_h%d_i%d_p%d" % (n, h, idx, hpos), est=200,
                       loops=dict(HL, peak_map_height=66, pruned_segment_parent=20), mem_est_gb=6))
-    for have, tiers in [(12, "qt"), (15, "qt"), (4, "qt"), (3, "t"), (0, "t"), (8, "t"), (14, "t"), (5, "t")]:
+    for have, tiers in [(12, "qt"), (15, "qt"), (4, "t"), (3, "t"), (0, "t"), (8, "t"), (14, "t"), (5, "t")]:
         obs.append(ob("c16::prunable_segment_root_needs_unspent_leaves", tiers, 10,
                       "a height-2 segment carrying a subset of its four leaves plus both height-1 parent hashes: Segment::root (first step of validate) succeeds only if every leaf the bitmap marks unspent is carried, and always when all four are carried",
                       "8-leaf MMR, segment (2, 0), carried leaves = bits of %d, every unspent bitmap, symbolic leaf data and hashes" % have, est=200,
